@@ -15,12 +15,14 @@ import os
 from harness import Test, Sweep, Fail, st, Sym
 from gens import expand
 import pyref.bign as RB
+import pyref.belt as BELT
 from errs import name as ename
 
 RULE = ("cases: 3 bign curves (l=128 mostly in quick) x {BMQV (kca,kcb in {0,1}^2), BSTS (1,1), BPACE ({0,1}^2), BAUTH (1,{0,1})} x hello strings "
         "(null / empty / 1..64 octets, each side) x certificates name||pubkey with names 0..20 (and 330..700 for the multi-block read path of the BSTS drivers) "
         "x passwords 0..40 octets x generator tapes (rejected samples 0 / 2^2l-1 / q before the ephemeral key, ephemeral key in {1, 2, q-1, random}, tape tail then filler); "
-        "honest: step by step on states of exactly keep(l) octets + RunA/RunB fed from the recorded messages; "
+        "honest: step by step on states of exactly keep(l) octets + RunA/RunB fed from the recorded messages; long-term keys tied to the tapes so that the transmitted response sa / sb / sct is 0 (BSTS, BAUTH with kcb); "
+        "NULL passed for the output of a step that sends nothing in the flag setting; "
         "tampering (full re-run from fresh states, same tapes): single-octet xor of every field of every message M1..M4, truncation by one octet (BSTS M2/M3, BAUTH M3), "
         "point := (0,0), (x,y+1), x>=p, y>=p, point of the twist, (x,0) (order 2 on an invalid curve; BAUTH: with Rct re-wrapped under the predictable key), (x,p-y) where y is bound (BMQV, BSTS, BAUTH with kcb); different passwords; unrelated private key / certificate. "
         "non-trivial: any tampered or mismatched run, any RunA/RunB run, kca != kcb; distinct by (protocol, l, kca, kcb, message, field, kind, outcome)")
@@ -89,6 +91,9 @@ def mk_env(x, c):
     else:
         for r in "ab":
             d = scal("d" + r)
+            if c.get("resp0") == r and (env["proto"] == "BSTS" or (env["proto"] == "BAUTH" and r == "b" and env["kcb"])):
+                d = zero_response_key(env, r)
+                env["resp0"] = r
             env["d" + r] = d
             env["cert" + r] = expand(sd + "n" + r, c["n" + r]) + RB.point_to_octets(M, RB.pubkey_calc(M, d))
             if r == "b" and c.get("fmt2"):
@@ -116,16 +121,38 @@ def other_pair(env, tag, namelen=3):
     return d, expand(env["sd"] + "nx" + tag, namelen) + RB.point_to_octets(env["M"], RB.pubkey_calc(env["M"], d))
 
 
+def tape_u(env, role):
+    """the ephemeral scalar the tape of `role` delivers"""
+    u = {"one": 1, "two": 2, "qm1": env["q"] - 1}.get(env["c"]["t" + role]["u"])
+    return env["scal"]("u" + role) if u is None else u
+
+
 def mk_tape(env, role):
     no, q, sd = env["no"], env["q"], env["sd"]
     spec = env["c"]["t" + role]
     t = expand(sd + role + "p", PRE.get((env["proto"], role), 0) * no // 4)
     for r in spec["rej"]:
         t += {"zero": 0, "max": (1 << (8 * no)) - 1, "q": q}[r].to_bytes(no, "little")
-    u = {"one": 1, "two": 2, "qm1": q - 1}.get(spec["u"])
-    if u is None:
-        u = env["scal"]("u" + role)
-    return t + u.to_bytes(no, "little") + expand(sd + role + "t", spec["tail"])
+    return t + tape_u(env, role).to_bytes(no, "little") + expand(sd + role + "t", spec["tail"])
+
+
+def tape_octets(tape, n):
+    """the first n octets a mode-0 tape delivers (x/shim.c: filler 0x5A + 7 i + (i >> 8) after the end)"""
+    return (tape + bytes((0x5A + 7 * i + (i >> 8)) & 255 for i in range(max(0, n - len(tape)))))[:n]
+
+
+def zero_response_key(env, role):
+    """the long-term key of `role` for which the Schnorr-type response s = (u - (2^l + t) d) mod q that travels (encrypted) in its message is 0:
+    d = u (2^l + t)^-1 mod q, t = <beltHash(...)>_l built from the ephemeral values of the two tapes (bake.c Step3/Step4, btok_bauth.c CTStep4).
+    The responses range over {0, ..., q - 1}; 0 is an honest value like any other."""
+    M, no, q, l = env["M"], env["no"], env["q"], env["l"]
+    xof = lambda u: RB.point_to_octets(M, RB.pubkey_calc(M, u))[:no]
+    if env["proto"] == "BSTS":
+        t = BELT.hash(xof(tape_u(env, "a")) + xof(tape_u(env, "b")))
+    else:
+        t = BELT.hash(xof(tape_u(env, "b")) + tape_octets(mk_tape(env, "a"), 16))      # <Vct>_2l || Rt, Rt = the terminal's only draw
+    t = int.from_bytes(t[:no // 2], "little")
+    return tape_u(env, role) * pow((1 << l) + t, -1, q) % q
 
 
 def plan(env):
@@ -196,8 +223,9 @@ def point_field(lay):
 
 
 # ------------------------------------------------------------------ one protocol run, step by step
-def do_run(x, env, mitm=None, ov=None):
+def do_run(x, env, mitm=None, ov=None, stop_at=None):
     """mitm = (message index, bytes -> bytes); ov = overrides {'da','db','certa','certb','certa@b','certb@a','pwda','pwdb'}.
+    stop_at = name of a step: the run stops before it and res['pending'] = (function, argument list, incoming message) is left to the caller (buffers stay allocated).
     -> {'steps': [(fn, err)], 'fail': (fn, err) | None, 'msgs': sent messages, 'keya', 'keyb'}"""
     ov = ov or {}
     pool = Pool(x)
@@ -244,6 +272,9 @@ def do_run(x, env, mitm=None, ov=None):
             if mitm is not None and mitm[0] == inp:
                 m = mitm[1](m)
         out = pool.out(outlen) if outlen is not None else None
+        if outlen == 0 and env["c"].get("nullout"):
+            out = None          # no message in this flag setting; mem.h: "Нулевой указатель buf является корректным, если count == 0"
+            res["nullout"] = True
         inb = None
         if env.get("shared") and out is not None and m is not None and "i" in tmpl and "o" in tmpl:
             # one transport buffer for the incoming and the outgoing message (as the library's own BAUTH test drives the steps: Step(buf, buf, state))
@@ -251,6 +282,9 @@ def do_run(x, env, mitm=None, ov=None):
         args = []
         for t in tmpl:
             args.append({"o": out, "i": (inb if inb is not None else pool.buf(m)) if t == "i" else None, "l": len(m) if m is not None else 0, "p": peer, "v": CERTVAL2 if (env["fmt2"] and role == "a") else CERTVAL, "s": state}[t])
+        if fn == stop_at:
+            res["pending"] = (fn, args, m, tmpl)
+            return res
         if done(fn, x.call(fn, *args)):
             return res
         if send:
@@ -368,10 +402,14 @@ def run_honest(ctx, c):
             if cur != ninc:
                 raise Fail("%s consumed %d of %d incoming messages" % (fn, cur, ninc))
     multi = env["proto"] == "BSTS" and max(len(m) for m in res["msgs"]) > 512
+    if env.get("resp0"):
+        ctx.cls("zero_response_" + env["resp0"])
+    if res.get("nullout"):
+        ctx.cls("null_out_for_empty_message")
     ctx.cls(env["proto"], "l%d" % env["l"], "kc%d%d" % (env["kca"], env["kcb"]), "ha_" + hcls(c["ha"]), "hb_" + hcls(c["hb"]), "drv" if drv else "steps",
             *(["multiblock"] if multi and drv else []), *(["shared_buffer"] if env["shared"] else []), *(["two_cert_formats"] if env["fmt2"] and env["proto"] in ("BMQV", "BSTS") else []))
-    if drv or env["kca"] != env["kcb"] or env["shared"]:
-        ctx.nontrivial(base_sig(env), drv, hcls(c["ha"]), hcls(c["hb"]), tuple(c["ta"]["rej"]), tuple(c["tb"]["rej"]), c["ta"]["u"], c["tb"]["u"], multi, env["shared"])
+    if drv or env["kca"] != env["kcb"] or env["shared"] or env.get("resp0") or res.get("nullout"):
+        ctx.nontrivial(base_sig(env), drv, hcls(c["ha"]), hcls(c["hb"]), tuple(c["ta"]["rej"]), tuple(c["tb"]["rej"]), c["ta"]["u"], c["tb"]["u"], multi, env["shared"], env.get("resp0"), res.get("nullout"))
     ctx.sample(c)
 
 
@@ -656,7 +694,8 @@ KINDS = ["oct"] * 8 + ["trunc", "trunc", "zero", "y1", "xp", "yp", "twist", "ord
 
 def tests(tier):
     name = st.one_of(st.integers(0, 20), st.integers(0, 20), st.integers(0, 20), st.integers(330, 700))
-    s_h = s_case(tier, {"drv": st.sampled_from([True, True, True, False]), "na": name, "nb": name, "shared": st.sampled_from([False, False, True]), "fmt2": st.sampled_from([False, False, True])})
+    s_h = s_case(tier, {"drv": st.sampled_from([True, True, True, False]), "na": name, "nb": name, "shared": st.sampled_from([False, False, True]), "fmt2": st.sampled_from([False, False, True]),
+                        "resp0": st.sampled_from([None, None, None, "a", "b"]), "nullout": st.sampled_from([False, False, True])})
     tam = st.fixed_dictionaries({"m": st.integers(0, 11), "f": st.integers(0, 5), "kind": st.sampled_from(KINDS), "pos": st.integers(0, 1023), "mask": st.integers(1, 255),
                                  "drv": st.sampled_from([False, True])})
     s_t = s_case(tier, {"tampers": st.lists(tam, min_size=10, max_size=10), "na": name, "nb": name})      # long certificates: altered messages on the multi-block read path of the drivers
